@@ -22,8 +22,9 @@ from pyvc.verify import unit
 
 LEVEL = 'other'
 EXPLANATION = ('result = spec(args) per function and branch, definedness (no log/sqrt/division outside its domain) and '
-               'non-negativity discharged by z3 with transcendentals as uninterpreted functions; MEEM is covered by a '
-               'bounded stand-in only (see bounded).')
+               'non-negativity discharged by z3 with transcendentals as uninterpreted functions; MEEM (contracts/C12_meem.py): every '
+               'operation defined, indices non-negative (bound lemmas, pyvc/signs.py) and linear in the certification indices '
+               '(generalise-and-prove over the interpolation chains); the bounded stand-in is kept as a second opinion.')
 SA = 'AEIC.utils.standard_atmosphere'
 R = z3.RealVal
 
@@ -779,3 +780,7 @@ def replay_meem(payload):
     r = native_sample(dict(seed=3, n=100))
     bad = [v for v in r.get('violations', []) if 'MEEM' in v['what']]
     return dict(reproduced=bool(bad), observed=bad[:3])
+
+
+# MEEM (PMnvol_MEEM) under contract: four units (indices measured / reconstructed from smoke numbers x engine type)
+from contracts import C12_meem  # noqa: E402,F401
